@@ -295,6 +295,31 @@ example : basicValidateWith parseCredsSplitAll (fun u p => u = b "user" && p = b
 example : basicValidate (fun u p => u = b "user" && p = b "pa:ss")
     [(b "Authorization", [b "Basic dXNlcjpwYTpzcw=="])] = some (b "user") := by decide
 
+/-! ### 2b. Basic credentials across generations of the filter (hot update; seeded change C06-m5)
+
+Every `Inherit` builds a fresh user cache with its own watcher / syncer, `Pipeline.Inherit` closes the previous generation: so
+whatever generation answers, a request is checked against the **current** content of the htpasswd file / etcd prefix. -/
+
+/-- **`basic_history_current_table`**: for every history of inherits (+ close of the previous generation), updates of the user
+table and requests, every request is answered from the table current at that moment. -/
+theorem basic_history_current_table (t : UserTable) (ops : List GenOp) : genRun false ⟨t, t, true⟩ ops = genSpec t ops :=
+  genRun_eq_spec_aux ops t
+
+/-- … combined with `basic_accept_iff`: a request is accepted as user `u` iff it carries `Basic base64(u:p)` with `(u, p)` in the
+table the cache holds — which by `basic_history_current_table` is the current one. -/
+theorem basic_accept_current_table (t : UserTable) (h : Header) (u : Bytes) :
+    basicValidate (tableMatch t) h = some u ↔ ∃ tok p, hget h authHeader = b "Basic " ++ tok ∧
+      Sha256.b64Decode tok = some (u ++ 58 :: p) ∧ 58 ∉ u ∧ tableMatch t u p = true :=
+  basic_accept_iff (tableMatch t) h u
+
+/-- contrast (the semantics of seeded change C06-m5: the new generation shares the previous generation's cache, which the
+previous generation's `Close` stops): after one inherit a removed user is still admitted and a changed password refused -/
+theorem shared_cache_serves_stale_table :
+    genRun true ⟨[(b "bob", b "old")], [(b "bob", b "old")], true⟩
+      [.inherit, .update [(b "bob", b "new")], .req (b "bob") (b "old"), .req (b "bob") (b "new")] = [true, false] ∧
+    genRun false ⟨[(b "bob", b "old")], [(b "bob", b "old")], true⟩
+      [.inherit, .update [(b "bob", b "new")], .req (b "bob") (b "old"), .req (b "bob") (b "new")] = [false, true] := by decide
+
 /-! ## 3. JWT: token source and algorithm pinning -/
 
 /-- **`jwt_source`**: the token is the named cookie's value when a cookie name is configured and that cookie
